@@ -64,11 +64,12 @@ def fits_writer(filename, data, components=None):
 
         values = data[cid]
 
+        blank = None
+
         if mask is not None:
             # We need to copy the values so that we can mask them
             values = values.copy()
             if values.dtype.kind == 'f':
-                blank = None
                 values[~mask] = np.nan
             elif values.dtype.kind == 'i':
                 blank = np.iinfo(values.dtype).min
